@@ -1,10 +1,281 @@
-/- line-protocol handlers for the C17 Layout models (stub; see Props/C17Layout.lean) -/
-import FontVerif.Model.Base
+/- line-protocol handlers for the C17 layout models (Model/SubsetLayout.lean, Model/SubsetGdef.lean)
+
+plan prefix of every request:   <numGlyphs> S <glyphset…|-> M <old new …|-> ;
+tables (token grammar, counts explicit):
+  coverage   := b | 1 <n> <g>*n | 2 <n> (<start> <end> <startCoverageIndex>)*n
+  classdef   := 1 <startGlyph> <n> <class>*n | 2 <n> (<start> <end> <class>)*n
+  sub(x)     := a | b | o x                       (absent / unreadable / ok)
+  attachlist := <coverage> <glyphCount> <n> (b | <hex AttachPoint bytes>)*n
+  caret      := b | 1 <hex> | 2 <hex> | 3 <coordinate u16> (b | d <hex Device bytes> | v <outer> <inner>)
+  lig        := b | l <k> caret*k
+  ligcarets  := <coverage> <ligGlyphCount> <n> lig*n
+  marksets   := <format> <n> coverage*n           (coverage `b` = unreadable)
+  store      := <format> (b | r <axisCount> <nRegions> <start peak end>*(nRegions*axisCount))
+                <nSubs> (n | b | o <itemCount> <wordDeltaCount> <ric> <ri>*ric <hex delta sets>)*nSubs
+
+  c17.cov      <plan> ; <coverage>                          -> ok <hex> | empty | soft | hard | trap
+  c17.covser   <g>… | -                                     -> (CoverageTable::serialize) ok <hex> | …
+  c17.classdef <plan> ; <remap> <keepEmpty> <useClassZero> (n | f <coverage>) <classdef>
+                                                            -> ok <hex> map=<old:new,…|none> | empty | …
+  c17.cdser    <g c>… | -                                   -> (ClassDef::serialize) ok <hex> | trap
+  c17.gdef     <plan> ; <major> <minor> sub(classdef) sub(attachlist) sub(ligcarets) sub(classdef)
+               sub(marksets) sub(store)                     -> ok <hex> | dropped | fail | trap
+  c17.gdefplan same request -> vmap=<old:new,…|-> inner=<a b|…,…> sets=<old:new,…|->
+  c17.covget   <coverage> <g>…  -> C16's reader `Coverage.get` per glyph (`-` = none)
+  c17.cdget    <classdef> <g>…  -> C16's reader `ClassDef.get` per glyph
+-/
+import FontVerif.Model.SubsetGdef
 namespace FontVerif.Drv.C17Layout
-open FontVerif
+open FontVerif FontVerif.Layout FontVerif.SubsetLayout FontVerif.SubsetGdef
+
+/-- a parser consumes tokens from the front -/
+abbrev P (α : Type) := List String → Option (α × List String)
+
+def pNat : P Nat
+  | t :: rest => (parseNat? t).map (·, rest)
+  | [] => none
+
+def pInt : P Int
+  | t :: rest => (parseInt? t).map (·, rest)
+  | [] => none
+
+def pHex : P (List Nat)
+  | t :: rest => (parseHex? t).map (·, rest)
+  | [] => none
+
+def pTimes {α : Type} (p : P α) : Nat → P (List α)
+  | 0, ts => some ([], ts)
+  | n + 1, ts =>
+    match p ts with
+    | none => none
+    | some (x, rest) =>
+      match pTimes p n rest with
+      | none => none
+      | some (xs, rest') => some (x :: xs, rest')
+
+def pCounted {α : Type} (p : P α) : P (List α) := fun ts =>
+  match pNat ts with
+  | none => none
+  | some (n, rest) => pTimes p n rest
+
+def pRange : P RangeRec := fun ts =>
+  match pTimes pNat 3 ts with
+  | some ([a, b, c], rest) => some (⟨a, b, c⟩, rest)
+  | _ => none
+
+def pClassRange : P ClassRangeRec := fun ts =>
+  match pTimes pNat 3 ts with
+  | some ([a, b, c], rest) => some (⟨a, b, c⟩, rest)
+  | _ => none
+
+/-- `none` inside = unreadable -/
+def pCoverage : P (Option Coverage)
+  | "b" :: rest => some (none, rest)
+  | "1" :: rest => (pCounted pNat rest).map fun (xs, r) => (some (.fmt1 xs), r)
+  | "2" :: rest => (pCounted pRange rest).map fun (xs, r) => (some (.fmt2 xs), r)
+  | _ => none
+
+def pClassDef : P ClassDef
+  | "1" :: rest =>
+    match pNat rest with
+    | none => none
+    | some (s, rest) => (pCounted pNat rest).map fun (xs, r) => (.fmt1 s xs, r)
+  | "2" :: rest => (pCounted pClassRange rest).map fun (xs, r) => (.fmt2 xs, r)
+  | _ => none
+
+def pSub {α : Type} (p : P α) : P (Tbl α)
+  | "a" :: rest => some (.absent, rest)
+  | "b" :: rest => some (.bad, rest)
+  | "o" :: rest => (p rest).map fun (x, r) => (.ok x, r)
+  | _ => none
+
+def pPoint : P (Option (List Nat))
+  | "b" :: rest => some (none, rest)
+  | ts => (pHex ts).map fun (x, r) => (some x, r)
+
+def pAttachList : P AttachListIn := fun ts => do
+  let (cov, ts) ← pCoverage ts
+  let (gc, ts) ← pNat ts
+  let (pts, ts) ← pCounted pPoint ts
+  some ({ cov, glyphCount := gc, points := pts }, ts)
+
+def pCaret : P CaretIn
+  | "b" :: rest => some (.bad, rest)
+  | "1" :: rest => (pHex rest).map fun (x, r) => (.f1 x, r)
+  | "2" :: rest => (pHex rest).map fun (x, r) => (.f2 x, r)
+  | "3" :: rest =>
+    match pNat rest with
+    | none => none
+    | some (c, rest) =>
+      match rest with
+      | "b" :: rest => some (.f3 c none, rest)
+      | "d" :: rest => (pHex rest).map fun (x, r) => (.f3 c (some (.device x)), r)
+      | "v" :: rest =>
+        match pTimes pNat 2 rest with
+        | some ([o, i], r) => some (.f3 c (some (.varIdx o i)), r)
+        | _ => none
+      | _ => none
+  | _ => none
+
+def pLig : P LigIn
+  | "b" :: rest => some (.bad, rest)
+  | "l" :: rest => (pCounted pCaret rest).map fun (x, r) => (.ok x, r)
+  | _ => none
+
+def pLigCarets : P LigCaretListIn := fun ts => do
+  let (cov, ts) ← pCoverage ts
+  let (n, ts) ← pNat ts
+  let (ligs, ts) ← pCounted pLig ts
+  some ({ cov, count := n, ligs }, ts)
+
+def pMarkSets : P MarkSetsIn := fun ts => do
+  let (f, ts) ← pNat ts
+  let (sets, ts) ← pCounted pCoverage ts
+  some ({ format := f, sets }, ts)
+
+def chunk {α} (k : Nat) : Nat → List α → List (List α)
+  | 0, _ => []
+  | n + 1, xs => xs.take k :: chunk k n (xs.drop k)
+
+def triples : List Int → List (Int × Int × Int)
+  | a :: b :: c :: rest => (a, b, c) :: triples rest
+  | _ => []
+
+def pSubTable : P SubsetHvar.SubIn
+  | "n" :: rest => some (.null, rest)
+  | "b" :: rest => some (.bad, rest)
+  | "o" :: rest => do
+    let (hd, rest) ← pTimes pNat 3 rest
+    let [ic, wdc, ric] := hd | none
+    let (ris, rest) ← pTimes pNat ric rest
+    let (data, rest) ← pHex rest
+    some (.ok { itemCount := ic, wordDeltaCount := wdc, regionIndexes := ris, data }, rest)
+  | _ => none
+
+def pStore : P StoreIn := fun ts => do
+  let (f, ts) ← pNat ts
+  let (regions, ts) ←
+    match ts with
+    | "b" :: rest => some (none, rest)
+    | "r" :: rest => do
+      let (ac, rest) ← pNat rest
+      let (nr, rest) ← pNat rest
+      let (vals, rest) ← pTimes pInt (nr * ac * 3) rest
+      some (some (ac, chunk ac nr (triples vals)), rest)
+    | _ => none
+  let (subs, ts) ← pCounted pSubTable ts
+  some ({ format := f, regions, subs }, ts)
+
+def pairs : List Nat → Option (List (Nat × Nat))
+  | [] => some []
+  | [_] => none
+  | a :: b :: rest => (pairs rest).map ((a, b) :: ·)
+
+def natList (ts : List String) : Option (List Nat) :=
+  if ts = ["-"] then some [] else parseNats? ts
+
+/-- `<numGlyphs> S … M … ;` -/
+def pPlan : P LPlan := fun ts => do
+  let (n, ts) ← pNat ts
+  let "S" :: ts := ts | none
+  let s := ts.takeWhile (· ≠ "M")
+  let "M" :: ts := ts.dropWhile (· ≠ "M") | none
+  let m := ts.takeWhile (· ≠ ";")
+  let ";" :: ts := ts.dropWhile (· ≠ ";") | none
+  let glyphset ← natList s
+  let gmap ← pairs (← natList m)
+  some ({ glyphset, gmap, numGlyphs := n }, ts)
+
+def pBool : P Bool
+  | "0" :: rest => some (false, rest)
+  | "1" :: rest => some (true, rest)
+  | _ => none
+
+def pGdef : P GdefIn := fun ts => do
+  let (major, ts) ← pNat ts
+  let (minor, ts) ← pNat ts
+  let (gc, ts) ← pSub pClassDef ts
+  let (al, ts) ← pSub pAttachList ts
+  let (lc, ts) ← pSub pLigCarets ts
+  let (ma, ts) ← pSub pClassDef ts
+  let (ms, ts) ← pSub pMarkSets ts
+  let (vs, ts) ← pSub pStore ts
+  some ({ major, minor, glyphClassDef := gc, attachList := al, ligCaretList := lc,
+          markAttachClassDef := ma, markGlyphSets := ms, varStore := vs }, ts)
+
+def errStr : E → String
+  | .empty => "empty"
+  | .soft => "soft"
+  | .hard => "hard"
+  | .trap => "trap"
+
+def fmtM (r : M (List Nat)) : String :=
+  match r with
+  | .ok bs => s!"ok {toHex bs}"
+  | .error e => errStr e
+
+def fmtPairs (ps : List (Nat × Nat)) : String :=
+  if ps.isEmpty then "-" else ",".intercalate (ps.map fun p => s!"{p.1}:{p.2}")
+
+def fmtOpt (o : Option Nat) : String :=
+  match o with
+  | some v => toString v
+  | none => "-"
 
 def handle (cmd : String) (args : List String) : Option String :=
   match cmd with
+  | "c17.cov" => do
+    let (p, ts) ← pPlan args
+    let (some c, []) ← pCoverage ts | none
+    some (fmtM ((subsetCoverage p c).map CovW.bytes))
+  | "c17.covser" => do
+    let gs ← natList args
+    some (fmtM ((serializeCoverage gs).map CovW.bytes))
+  | "c17.classdef" => do
+    let (p, ts) ← pPlan args
+    let (flags, ts) ← pTimes pBool 3 ts
+    let [remap, keep, zero] := flags | none
+    let (filter, ts) ←
+      match ts with
+      | "n" :: rest => some (none, rest)
+      | "f" :: rest =>
+        match pCoverage rest with
+        | some (some c, r) => some (some c, r)
+        | _ => none
+      | _ => none
+    let (cd, []) ← pClassDef ts | none
+    match subsetClassDef p { remapClass := remap, keepEmpty := keep, useClassZero := zero, filter } cd with
+    | .error e => some (errStr e)
+    | .ok (out, cm) =>
+      let m := match cm with
+        | none => "none"
+        | some cm => fmtPairs cm
+      some s!"ok {toHex (classDefBytes out)} map={m}"
+  | "c17.cdser" => do
+    let ps ← pairs (← natList args)
+    some (fmtM ((serializeClassDef ps).map classDefBytes))
+  | "c17.gdef" => do
+    let (p, ts) ← pPlan args
+    let (g, []) ← pGdef ts | none
+    match subsetGdef p g with
+    | .ok bs => some s!"ok {toHex bs}"
+    | .dropped => some "dropped"
+    | .fail => some "fail"
+    | .trap => some "trap"
+  | "c17.gdefplan" => do
+    let (p, ts) ← pPlan args
+    let (g, []) ← pGdef ts | none
+    let vp := varPlan p g
+    let inner := if vp.inner.isEmpty then "-" else ",".intercalate (vp.inner.map joinNats)
+    some s!"vmap={fmtPairs vp.vmap} inner={inner} sets={fmtPairs (usedMarkSetsMap p g)}"
+  | "c17.covget" => do
+    let (some c, ts) ← pCoverage args | none
+    let gs ← natList ts
+    some (" ".intercalate (gs.map fun g => fmtOpt (c.get g)))
+  | "c17.cdget" => do
+    let (cd, ts) ← pClassDef args
+    let gs ← natList ts
+    some (joinNats (gs.map fun g => cd.get g))
   | _ => none
 
 end FontVerif.Drv.C17Layout
